@@ -245,6 +245,12 @@ func (c *Conv) setPaddingWithAutoPad(x tensor.Tensor) {
 		targetSize := (dim + c.strides[i] - 1) / c.strides[i]
 		padNeeded := (targetSize-1)*c.strides[i] + c.kernelShape[i] - dim
 
+		// The windows can already cover the input without padding, e.g. when the
+		// stride is larger than the kernel. A negative padding does not exist.
+		if padNeeded < 0 {
+			padNeeded = 0
+		}
+
 		var padHead int
 		if c.autoPad == SameLower {
 			// nolint as the division by zero is literally division by two
